@@ -58,10 +58,20 @@ def get_list_of_concatenated_objects(def_obj, path_to_extension):
     def_objs = []
     assert def_obj is not None
 
+    visited = set()
+
     def rec_walk(obj_or_list):
         if obj_or_list is not None:
             if not isinstance(obj_or_list, list):
                 obj_or_list = [obj_or_list]
+            # an object reached again (e.g. a cycle of base classes) is not
+            # walked a second time
+            obj_or_list = [
+                o
+                for o in obj_or_list
+                if type(o) is Postponed or id(o) not in visited
+            ]
+            visited.update(id(o) for o in obj_or_list)
             for o in obj_or_list:
                 def_objs.append(o)
             for o in obj_or_list:
